@@ -73,11 +73,12 @@ def make_classes():
         def __init__(self, sock):
             super().__init__(sock)
             self.v_quiet = False
+            self.v_pass_kex = False
             self.v_log = []
 
         def read_message(self):
             ptype, m = super().read_message()
-            if self.v_quiet:
+            if self.v_quiet and not (self.v_pass_kex and (ptype in (20, 21) or 30 <= ptype <= 49)):
                 self.v_log.append(m.asbytes())
                 return 2, m
             return ptype, m
@@ -242,6 +243,21 @@ def make_classes():
                 time.sleep(0.002)
             else:
                 self.hang = True
+            return True
+
+        def client_rekey(self):
+            """A complete client-initiated key re-exchange (KEXINIT .. NEWKEYS); the peer stays deaf to everything else."""
+            self.tc.packetizer.v_pass_kex = True
+            try:
+                self.tc.renegotiate_keys()
+            except Exception:
+                return False
+            finally:
+                self.tc.packetizer.v_pass_kex = False
+            deadline = time.time() + 8
+            while time.time() < deadline and self.ts.is_alive() and (
+                    self.ts.in_kex or not self.ts.packetizer.v_idle.is_set()):
+                time.sleep(0.002)
             return True
 
         def start_server_rekey(self):
@@ -628,6 +644,72 @@ def gss_mic_loopback(ctx):
                 finally:
                     sess.close()
     return sorted(outcome)
+
+
+def dialogue_loopback(ctx):
+    """C14 on real server transports: the dialogue histories of c14.dialogue_histories() (keyboard-interactive; the
+    gssapi-with-mic dialogue only when its handler dispatches), additionally with a complete client-initiated re-key
+    placed at every point of the dialogue.  WHO ends up authenticated is compared with who was approved, and the
+    server's pinned username / failure count must survive each re-key."""
+    import paramiko
+    Session = make_classes()
+    hostkey = paramiko.RSAKey.from_private_key_file(os.path.join(ctx.repo, "tests", "_support", "rsa.key"))
+    holder = {}
+    n = 0
+    hists = []
+    for name, hist in c14.dialogue_histories():
+        if name.startswith("gssapi"):
+            continue                    # dead on a real transport while the handler table is unbound (see gss_mic_loopback)
+        hists.append((name, hist))
+        # the same history with a re-key right before the inserted messages, and one right after them
+        ins = [i for i, st in enumerate(hist) if st[3] != "dialogue"]
+        hists.append((name + " + re-key before", hist[:ins[0]] + ["rekey"] + hist[ins[0]:]))
+        hists.append((name + " + re-key after", hist[:ins[-1] + 1] + ["rekey"] + hist[ins[-1] + 1:]))
+    # re-key alone at every point of the plain dialogue
+    plain = [st for st in next(iter(c14.dialogue_histories()))[1] if st[3] == "dialogue"]
+    for k in range(len(plain) + 1):
+        hists.append(("keyboard-interactive, re-key before message %d" % k, plain[:k] + ["rekey"] + plain[k:]))
+    with c14.gss_patch(holder):
+        for name, hist in hists:
+            sess = Session(hostkey)
+            holder["world"] = sess
+            asked, log = [], []
+            try:
+                for st in hist:
+                    if not sess.alive():
+                        break
+                    if st == "rekey":
+                        h = getattr(sess.ts.auth_handler, "_delegate", sess.ts.auth_handler)
+                        before = (h.auth_username, h.auth_fail_count)
+                        log.append("re-key")
+                        if sess.client_rekey() and sess.alive():
+                            h2 = getattr(sess.ts.auth_handler, "_delegate", sess.ts.auth_handler)
+                            after = (getattr(h2, "auth_username", None), getattr(h2, "auth_fail_count", None))
+                            if after != before:
+                                ctx.fail("rekey-resets-auth-state", "history [%s]: a re-key during the dialogue changed the "
+                                         "server's pinned username / failure count from %r to %r" % (name, before, after),
+                                         case={"loopback_dialogue": log}, expected=before, observed=after)
+                        continue
+                    sess.send(st[0], st[1], st[2], True)
+                    log.append("type %d %s" % (st[0], st[1].hex()))
+                    asked += [ev[2] for ev in sess.trace if ev[0] == "cb" and ev[1] != "interactive_response"]
+                n += 1
+                ctx.count(("dialogue-loopback", name), kind="dialogue-loopback")
+                h = getattr(sess.ts.auth_handler, "_delegate", sess.ts.auth_handler)
+                authed = bool(h is not None and h.authenticated)
+                who = h.get_username() if h is not None else None
+                bad = c14.who_defect(authed, who, asked)
+                intruder = any(st != "rekey" and st[3] == "intruder" for st in hist)
+                if bad is None and not intruder and not authed:
+                    bad = ("valid-dialogue-rejected", "alice's approved dialogue did not authenticate her")
+                if bad:
+                    ctx.fail(bad[0] + ":loopback:" + ("re-key" if "rekey" in hist else "no-re-key"),
+                             "real server transport, history [%s]: %s" % (name, bad[1]),
+                             case={"loopback_dialogue": log}, expected="only alice can be authenticated / evaluated",
+                             observed={"authenticated": authed, "get_username": who, "asked": asked})
+            finally:
+                sess.close()
+    return "%d histories" % n
 
 
 def inkex_sessions(ctx, Session, hostkey, stats):
